@@ -1,1 +1,20 @@
-fn main() { let _ = vcommon::Ctx::from_args(); }
+mod c15;
+mod shim;
+
+fn main() {
+    let ctx = vcommon::Ctx::from_args();
+    ctx.watchdog(ctx.pick(900, 7200));
+    // everything runs on a big-stack thread: the runtime's braid buffers are large
+    std::thread::scope(|sc| {
+        std::thread::Builder::new()
+            .stack_size(256 << 20)
+            .spawn_scoped(sc, || match ctx.prop.as_str() {
+                "C15" => c15::run(&ctx),
+                p => {
+                    println!("INCONCLUSIVE vh-crash does not serve {p}");
+                    std::process::exit(2);
+                }
+            })
+            .expect("spawn");
+    });
+}
